@@ -8,6 +8,8 @@ cd $W || exit 2
 PKG=./$(dirname $DEMO)
 [ -f patch.diff ] || { echo "no patch.diff"; exit 2; }
 mkdir -p /verif/seeded/$ID
+# new library files belong to the patch as well
+for nf in $(git ls-files --others --exclude-standard | grep -v "demo_test.go\|^patch.diff$\|^meta.json$\|\.bak$"); do git add -N "$nf"; done
 git diff -- . ":!$DEMO" ':!patch.diff' ':!meta.json' > /verif/seeded/$ID/patch.diff
 cp $DEMO /verif/seeded/$ID/$(basename $DEMO).txt
 cp meta.json /verif/seeded/$ID/agent_meta.json 2>/dev/null
